@@ -1243,7 +1243,7 @@ class BADS:
 
             self.optim_state[
                 "search_sufficient_improvement"
-            ] = self.sufficient_improvement.copy()
+            ] = np.copy(self.sufficient_improvement)
 
             do_search_step_flag = (
                 self.optim_state["search_count"] < self.options["search_n_try"]
